@@ -88,8 +88,11 @@ type Script struct {
 	// every request message and every reply carries; binary fronts only.
 	// Deadline: "" about ten seconds (the watchdog), "none" no deadline,
 	// "long" five minutes; the watchdog then works by cancellation.
-	Unk      string `json:"unknown_fields,omitempty"`
-	Deadline string `json:"deadline,omitempty"`
+	Unk string `json:"unknown_fields,omitempty"`
+	// ProtoBody: HTTP front with application/protobuf bodies (unary and
+	// client-streaming methods), which can carry unknown fields too.
+	ProtoBody bool   `json:"proto_body,omitempty"`
+	Deadline  string `json:"deadline,omitempty"`
 
 	// Hop: class of HTTP/1 connection header fields added to the request
 	// (HTTP front); InProc: the request is handed to the Mux in-process.
@@ -123,6 +126,9 @@ func (s *Script) String() string {
 	}
 	if s.Unk != "" {
 		meta += " unknown-fields=" + s.Unk
+	}
+	if s.ProtoBody {
+		meta += " application/protobuf"
 	}
 	if s.Deadline != "" {
 		meta += " deadline=" + s.Deadline
@@ -712,6 +718,23 @@ func unkScripts(rng *rand.Rand) []*Script {
 				out = append(out, s)
 			}
 		}
+		if front == "grpc" {
+			// the same over HTTP with application/protobuf bodies
+			hs := map[string][]structure{}
+			for _, st := range structures("http") {
+				if st.NMsg > 0 && (st.Shape == "unary" || st.Shape == "cs") {
+					hs[st.Shape] = append(hs[st.Shape], st)
+				}
+			}
+			for _, shape := range []string{"unary", "cs"} {
+				for _, k := range append([]string{""}, unknownKinds...) {
+					s := materialise(rng, hs[shape][rng.Intn(len(hs[shape]))])
+					s.HTTPGet, s.Texts, s.JSONEsc = false, nil, false
+					s.ProtoBody, s.Unk = true, k
+					out = append(out, s)
+				}
+			}
+		}
 		// ping-pong: the unknown fields come back in the echo
 		for _, k := range unknownKinds {
 			out = append(out, &Script{Front: front, Shape: "bidi", NMsg: 3, Server: []string{"s", "p"}, Client: []string{"s", "s", "s", "c"}, Fam: "unknown:pingpong",
@@ -875,6 +898,12 @@ func materialise(rng *rand.Rand, st structure) *Script {
 	}
 	if rng.Intn(3) == 0 {
 		drawSizes(rng, &s)
+	}
+	if s.Front == "http" && (s.Shape == "unary" || s.Shape == "cs") && !s.HTTPGet && len(s.Texts) == 0 && rng.Intn(4) == 0 {
+		s.ProtoBody = true
+		if rng.Intn(2) == 0 {
+			s.Unk = unknownKinds[rng.Intn(len(unknownKinds))]
+		}
 	}
 	if s.Front == "grpc" || s.Front == "web" {
 		if rng.Intn(4) == 0 {
